@@ -155,7 +155,7 @@ def rule_W_INTERNAL(ctx, d, paths):
             if e.kind in ('EVALRAISE',) + UNHASH:
                 origin = e
                 break
-            if e.kind in ('GETMISS', 'DELMISS', 'BKEMPTY', 'BKMISS', 'RAISE'):
+            if e.kind in ('GETMISS', 'DELMISS', 'BKEMPTY', 'BKMISS', 'RAISE', 'FNATTRERR', 'LIBRAISE', 'LOCKERR'):
                 origin = e
                 break
         ok = origin is not None and origin.kind in ('EVALRAISE',) + UNHASH
@@ -165,7 +165,10 @@ def rule_W_INTERNAL(ctx, d, paths):
             kind = origin.kind if origin is not None else 'unknown'
             what = {'BKEMPTY': 'pop from an empty bookkeeping queue', 'GETMISS': 'uncaught KeyError of a cache lookup',
                     'DELMISS': 'uncaught KeyError deleting a cache entry', 'BKMISS': 'uncaught error removing from bookkeeping',
-                    'RAISE': 'explicit raise'}.get(kind, kind)
+                    'RAISE': 'explicit raise', 'FNATTRERR': 'reading an attribute (%s) that a functools.partial / callable instance / builtin does not have' % (
+                        render(origin.args[0]) if origin is not None and origin.args else '?',),
+                    'LIBRAISE': 'a library call that can raise (%s)' % (render(origin.args[0]) if origin is not None and origin.args else '?',),
+                    'LOCKERR': 'releasing a lock that is not held'}.get(kind, kind)
             after_set = any(e.kind == 'SET' for e in o.st.events)
             ctx.fail('W-INTERNAL', wq(d), '%s escapes as %s%s' % (kind, o.exc, ' after SET' if after_set else ''),
                      '%s escapes the call as %s%s' % (what, o.exc, ' after the new entry was inserted (nothing evicted)' if after_set else ''),
@@ -833,6 +836,14 @@ def rule_W_LOOKUP(ctx, d):
                 ctx.fail('W-LOOKUP', cq(d, node.name), 'KeyError although an entry was found',
                          'lookup() raises KeyError on a path where the cache returned an entry for the key (the value is tested, e.g. `is None`): a call whose stored '
                          'result is None is resident and served as a hit, yet lookup() reports it as not stored', where(d, o.line), render_path(o))
+            elif o.kind == RAISE and o.exc == 'KeyError' and name == 'lookup' and not any(e.kind in ('GET', 'GETMISS', 'GETERR') for e in o.st.events) \
+                    and not any(e.kind in UNHASH for e in o.st.events):
+                # KeyError is lookup()'s way of saying "nothing stored": it may only come from asking the cache
+                ctx.ob('W-LOOKUP', None, False)
+                why = 'a lock that could not be taken at once' if any(e.kind == 'LOCKBUSY' for e in o.st.events) else 'a test that does not consult the cache'
+                ctx.fail('W-LOOKUP', cq(d, node.name), 'KeyError without asking the cache',
+                         'lookup() raises KeyError on a path that never looked the key up in the cache (%s): a resident result is reported as not stored' % why,
+                         where(d, o.line), render_path(o))
         if name == 'lookup':
             ctx.ob('W-LOOKUP', d.name + '.lookup KeyError', saw_keyerror)
             if not saw_keyerror:
@@ -1776,6 +1787,9 @@ def rule_W_BKPICKLE(ctx, repo):
     ctx.ob('W-LOCAL', 'container classes of the decorator modules examined', True, n=max(1, n))
 
 
+PROCESS_BOUND_CALLS = ('getpid', 'getppid', 'get_ident', 'get_native_id', 'current_thread', 'current_process', 'time', 'monotonic', 'perf_counter', 'time_ns', 'uuid1', 'uuid4', 'gethostname', 'getcwd')
+
+
 def rule_W_CELLS(ctx, d):
     """W-LOCAL (what a closure cell holds is pickled by value): the locals of __call__ that the closures read are the cache, the configuration and the
     plain bookkeeping containers.  A *view* or iterator of such a container (use_count.items()) is pickled as a view of a copy - the clone ranks
@@ -1797,6 +1811,9 @@ def rule_W_CELLS(ctx, d):
         elif contains_term(v, lambda t: t[0] == 'lib' and t[1].split('.')[0] == 'random') or \
                 contains_term(v, lambda t: t[0] == 'attr' and isinstance(t[1], tuple) and t[1][0] == 'lib' and t[1][1].split('.')[0] == 'random'):
             why = 'a function of the random module (a bound method of the process-wide generator)'
+        elif contains_term(v, lambda t: t[0] == 'call' and t[1][0] == 'lib' and t[1][1].split('.')[-1] in PROCESS_BOUND_CALLS):
+            why = 'the result of a call that identifies this process / thread / moment (%s)' % [t[1][1] for t in subterms(v) if t[0] == 'call' and t[1][0] == 'lib'
+                                                                                           and t[1][1].split('.')[-1] in PROCESS_BOUND_CALLS][0]
         ctx.ob('W-LOCAL', '%s.__call__ cell %s' % (d.name, k), why is None)
         if why is not None:
             ctx.fail('W-LOCAL', d.qual + '.__call__', 'closure cell %s holds %s' % (k, why.split(' (')[0]),
@@ -1848,3 +1865,46 @@ def rule_W_LOCAL(ctx, d):
                          'closure %s reads module-level object "%s": state outside the closure cells/__state__ is not carried by pickling' % (fn.name, n.id),
                          where(d, n.lineno))
     ctx.ob('W-LOCAL', d.name, ok_all)
+
+
+def rule_W_ALIAS(ctx, d):
+    """W-BK (aliases stay aliases): __call__ binds shortcuts to bound methods of its bookkeeping containers (`queue_append = queue.append`).  Such a
+    shortcut refers to the object the name held at decoration time - so a nested function must never *rebind* that name (`nonlocal queue; queue = deque(..)`):
+    the shortcuts would keep feeding the old object while everything that uses the name reads the new one, and recency / frequency records split in two."""
+    call = d.call_fi.node
+    from .src import _own_scope_nodes, _local_bindings
+    aliases = {}
+    for n in _own_scope_nodes(call):
+        if not isinstance(n, ast.Assign):
+            continue
+        pairs = []
+        for t in n.targets:
+            if isinstance(t, ast.Tuple) and isinstance(n.value, ast.Tuple) and len(t.elts) == len(n.value.elts):
+                pairs.extend(zip(t.elts, n.value.elts))
+            else:
+                pairs.append((t, n.value))
+        for t, v in pairs:
+            if isinstance(t, ast.Name) and isinstance(v, ast.Attribute) and isinstance(v.value, ast.Name):
+                aliases.setdefault(v.value.id, []).append((t.id, n.lineno))
+    nested = [n for n in ast.walk(call) if isinstance(n, ast.FunctionDef) and n is not call]
+    used = set(x.id for f in nested for x in ast.walk(f) if isinstance(x, ast.Name) and isinstance(x.ctx, ast.Load))
+    n_alias = 0
+    for base, als in sorted(aliases.items()):
+        live = [a for a, _l in als if a in used]
+        if not live:
+            continue
+        n_alias += 1
+        rebinders = []
+        for f in nested:
+            local, declared = _local_bindings(f)
+            if base in declared:
+                for x in _own_scope_nodes(f):
+                    if isinstance(x, ast.Name) and x.id == base and isinstance(x.ctx, (ast.Store, ast.Del)):
+                        rebinders.append((f.name, x.lineno))
+        ctx.ob('W-BK', '%s: `%s` (aliased by %s) is never rebound' % (d.name, base, ', '.join(live)), not rebinders)
+        for fname, line in rebinders[:1]:
+            ctx.fail('W-BK', cq(d, fname), 'rebinds %s while %s still refer to the old object' % (base, ', '.join(live)),
+                     '%s() declares `nonlocal %s` and assigns a new object to it, but %s were bound to methods of the object created at decoration time and are '
+                     'still used: after the first rebinding, uses recorded through the shortcuts go to the old container and whatever reads `%s` sees the new one - '
+                     'the eviction order no longer follows the recorded uses' % (fname, base, ', '.join(live), base), where(d, line))
+    ctx.ob('W-BK', '%s: bound-method shortcuts examined' % d.name, True, n=n_alias)
